@@ -271,6 +271,7 @@ def execute(sc, ctx):
                     if not _same_value(s, cur, val):
                         try:
                             via = ("overridden-by-set-default" if any(core.expr_value(c) for _, c, _ in s.weak_rev_values) else
+                                   "overridden-by-imply" if (s.orig_type == core.BOOL and core.expr_value(s.weak_rev_dep)) else
                                    "depends-on-choice-member" if any(getattr(d, "choice", None) is not None for d in s.dependencies) else "plain")
                         except Exception:
                             via = "plain"
